@@ -1,5 +1,6 @@
 (* Line-oriented driver: evaluates the extracted Coq models on the inputs of the harness's
    correspondence cases and prints, for every C line, the model's outputs. *)
+type ostring = string
 open Model
 
 (* ---- conversions between OCaml values and the extracted inductive types ---- *)
@@ -9,7 +10,7 @@ let rec int_of_pos = function XH -> 1 | XO p -> 2 * int_of_pos p | XI p -> 2 * i
 let int_of_n = function N0 -> 0 | Npos p -> int_of_pos p
 
 let byte_tbl = Array.init 256 (fun i -> byte_of_N_total (n_of_int i))
-let bytes_of_string (s : string) = List.init (String.length s) (fun i -> byte_tbl.(Char.code s.[i]))
+let bytes_of_string (s : ostring) = List.init (String.length s) (fun i -> byte_tbl.(Char.code s.[i]))
 let string_of_bytes l =
   let b = Buffer.create 16 in
   List.iter (fun x -> Buffer.add_char b (Char.chr (int_of_n (to_N x)))) l; Buffer.contents b
@@ -17,10 +18,10 @@ let string_of_bytes l =
 let hexval c = match c with
   | '0'..'9' -> Char.code c - 48 | 'a'..'f' -> Char.code c - 87 | 'A'..'F' -> Char.code c - 55
   | _ -> failwith "hex"
-let unhx (s : string) : string =   (* "x6162" -> "ab" *)
+let unhx (s : ostring) : ostring =   (* "x6162" -> "ab" *)
   let n = (String.length s - 1) / 2 in
   String.init n (fun i -> Char.chr (hexval s.[1 + 2*i] * 16 + hexval s.[2 + 2*i]))
-let hx (s : string) : string =
+let hx (s : ostring) : ostring =
   let b = Buffer.create (1 + 2 * String.length s) in
   Buffer.add_char b 'x';
   String.iter (fun c -> Buffer.add_string b (Printf.sprintf "%02x" (Char.code c))) s; Buffer.contents b
@@ -38,16 +39,16 @@ let rec pos_add a b = match a, b with
 let n_add a b = match a, b with N0, x | x, N0 -> x | Npos p, Npos q -> Npos (pos_add p q)
 let n_double = function N0 -> N0 | Npos p -> Npos (XO p)
 let n_mul10 n = let d = n_double n in n_add (n_double (n_double d)) d
-let n_of_dec (s : string) : n =
+let n_of_dec (s : ostring) : n =
   let r = ref N0 in
   String.iter (fun c -> r := n_add (n_mul10 !r) (n_of_int (Char.code c - 48))) s; !r
-let z_of_dec (s : string) : z =
+let z_of_dec (s : ostring) : z =
   if s = "" then failwith "z_of_dec" else
   if s.[0] = '-' then (match n_of_dec (String.sub s 1 (String.length s - 1)) with N0 -> Z0 | Npos p -> Zneg p)
   else (match n_of_dec s with N0 -> Z0 | Npos p -> Zpos p)
 (* Z -> decimal: repeated division by 10 on a little-endian bit list *)
 let rec bits_of_pos = function XH -> [true] | XO p -> false :: bits_of_pos p | XI p -> true :: bits_of_pos p
-let dec_of_pos (p : positive) : string =
+let dec_of_pos (p : positive) : ostring =
   (* big-endian bits, repeated divmod 10 *)
   let bits = ref (List.rev (bits_of_pos p)) in
   let digits = Buffer.create 16 in
@@ -65,16 +66,37 @@ let dec_of_z = function Z0 -> "0" | Zpos p -> dec_of_pos p | Zneg p -> "-" ^ dec
 let rec nat_of_int i = if i = 0 then O else S (nat_of_int (i - 1))
 let rec int_of_nat = function O -> 0 | S n -> 1 + int_of_nat n
 
+(* Coq strings (ascii = 8 booleans) *)
+let coq_ascii (c : char) : ascii =
+  let n = Char.code c in
+  let b i = (n lsr i) land 1 = 1 in
+  Ascii (b 0, b 1, b 2, b 3, b 4, b 5, b 6, b 7)
+let coq_string (s : ostring) : Model.string =
+  let r = ref EmptyString in
+  for i = String.length s - 1 downto 0 do r := String (coq_ascii s.[i], !r) done; !r
+
 let b2s b = if b then "1" else "0"
 let ints_of s = if s = "" || s = "-" then [] else List.map z_of_dec (String.split_on_char ',' s)
 let of_ints l = String.concat "," (List.map dec_of_z l)
 
 (* ---- dispatch: kind -> inputs -> outputs ---- *)
-let eval (kind : string) (ins : string list) : string list =
+let eval (kind : ostring) (ins : ostring list) : ostring list =
   match kind, ins with
   | "less", [a; b] -> [b2s (less (bytes_of_hx a) (bytes_of_hx b))]
   | "sort", [l] -> [hxs_of_list (sort_strings (list_of_hxs l))]
   | "idsort", [l] -> [of_ints (sort_ids (ints_of l))]
+  | "writeto", [chunks; ks] ->
+    let cl = list_of_hxs chunks in
+    let one k =
+      let (((n, failed), delivered), calls) = writeto_fail_after (nat_of_int (int_of_string k)) cl in
+      Printf.sprintf "%d:%s:%s:%d" (int_of_nat n) (b2s failed) (Digest.to_hex (Digest.string (string_of_bytes delivered))) (int_of_nat calls) in
+    [String.concat "," (List.map one (String.split_on_char ',' ks))]
+  | "enum_str", [ty; v] -> [hx_of_bytes (enum_str (coq_string ty) (z_of_dec v))]
+  | "enum_from", [ty; s] -> [match enum_from (coq_string ty) (bytes_of_hx s) with Some v -> dec_of_z v | None -> "Panic"]
+  | "cc_read", [n] -> [dec_of_z (cc_read (z_of_dec n))]
+  | "flagset_value", [ty; names] ->
+    let ns = List.map bytes_of_string (String.split_on_char ',' names) in
+    [match flagset_value (coq_string ty) ns with Some v -> dec_of_z v | None -> "Panic"]
   | _ -> failwith ("unknown kind " ^ kind)
 
 let () =
